@@ -26,3 +26,21 @@ pub fn judge(o: &Outcome) {
         }
     }
 }
+
+/// Like `judge`, but a violation is first written as an ordinary replay file holding the decoded case.
+#[allow(dead_code)]
+pub fn judge_case(prop: &str, sub: &str, case: &serde_json::Value, o: &Outcome) {
+    let k = known();
+    for f in &o.fails {
+        if !k.contains(&f.signature) {
+            let sig: String = f.signature.chars().map(|c| if c.is_ascii_alphanumeric() || c == '-' { c } else { '_' }).take(60).collect();
+            let path = format!("/verif/replays/{}-fuzz-{}.json", prop, sig);
+            let _ = std::fs::create_dir_all("/verif/replays");
+            let doc = serde_json::json!({"property": prop, "sub": sub, "signature": f.signature, "detail": f.detail, "case": case});
+            let _ = std::fs::write(&path, serde_json::to_vec(&doc).unwrap_or_default());
+            eprintln!("ORACLE-VIOLATION [{}] {}", f.signature, f.detail);
+            eprintln!("REPLAY-FILE {}", path);
+            std::process::abort();
+        }
+    }
+}
